@@ -3,6 +3,7 @@ import WfModel.Model.Parse
 import WfModel.Model.Eval
 import WfModel.Model.Json
 import WfModel.Model.Visitor
+import WfModel.Model.ParseErr
 /-!
 Stateful part of the line protocol: a current scheme + settings and a current context.
 
@@ -95,15 +96,28 @@ def kindStr (k : ErrKind) : String := (reprStr k).replace "WfModel.ErrKind." ""
 
 def stuckStr (s : Stuck) : String := "stuck:" ++ (reprStr s).replace "WfModel.Stuck." ""
 
+/-- kinds whose span inside a literal is only approximated by the model (third-party
+parsers report sub-spans): compared by kind only -/
+def kindOnlySpan (k : ErrKind) : Bool :=
+  k == .parseNetwork || k == .parseRegex || k == .parseWildcard || k == .incompatibleRangeBounds
+
+def locate (src : List Char) (e : LexErr) : String :=
+  if kindOnlySpan e.kind then "* * *" else
+  let off := if (trim src).isEmpty then 0 else trimStartCount src + ((trim src).length - e.pos.length)
+  let pe := ParseErr.mk (fun c => c == '\n') src off e.len
+  s!"{pe.lineNumber} {pe.spanStart} {pe.spanLen}"
+
+def errAnswer (txt : List Char) (e : LexErr) (detail : Bool) : String :=
+  if e.kind == .undecided then "skip"
+  else if detail then
+    if txt.any (fun c => c.toNat ≥ 128) then "err nonascii"
+    else s!"err {kindStr e.kind} {locate txt e}"
+  else "err"
+
 def parseAnswer (st : St) (txt : List Char) (detail : Bool) : String :=
   match parseFilter st.env txt with
   | .ok _ => "ok"
-  | .error e =>
-    if e.kind == .undecided then "skip"
-    else if detail then
-      let input := trim txt
-      s!"err {kindStr e.kind} {input.length - e.pos.length} {e.len}"
-    else "err"
+  | .error e => errAnswer txt e detail
 
 def withAst (st : St) (txt : List Char) (k : LExpr → String) : String :=
   match parseFilter st.env txt with
@@ -136,6 +150,11 @@ def step (st : St) : List String → Option (St × String)
   | ["perr", h] => do
     let txt ← hexText h
     pure (st, parseAnswer st txt true)
+  | ["perrv", h] => do
+    let txt ← hexText h
+    pure (st, match parseValue st.env txt with
+      | .ok _ => "ok"
+      | .error e => errAnswer txt e true)
   | ["exec", h] => do
     let txt ← hexText h
     pure (st, withAst st txt fun e =>
